@@ -14,6 +14,10 @@ PID = 'C05'
 
 
 def execute(cfg, V):
+    if cfg['level'] == 'time':
+        from harness import C09
+        obs = C09.execute(cfg, V)
+        return [o for o in obs if o.name.startswith('p(t)')]
     if cfg['level'] == 'net':
         r = netlib.repo()
         net, params = netlib.build_network(cfg, V)
@@ -83,7 +87,15 @@ def worker(cfg):
         mods = netlib.patched_modules()
     else:
         mods = cirlib.patched_modules()
-    out = sx.run_symbolic(execute, cfg, mods, rounds=0, seed=driver.seed_of())
+    if cfg['level'] == 'time':
+        from harness import C09, C08
+        from symx.npf import NPFacade
+        full = dict(cfg, pieces={w: C08.pieces(w) for w in {it[4] for it in cfg['components'] if it[3] in ('Vper', 'Iper')}})
+        out = sx.run_symbolic(execute, full, mods, rounds=1, seed=driver.seed_of(), facade=NPFacade(int_bound=C09.KMAX), max_paths=3000)
+        for v in out['violations']: v['cfg'] = dict(cfg)
+        for i in out['inconclusive']: i['cfg'] = dict(cfg)
+    else:
+        out = sx.run_symbolic(execute, cfg, mods, rounds=0, seed=driver.seed_of())
     for v in out['violations']:
         v['sig'].update({'level': cfg['level']}); v['pid'] = PID
     res.update({k: out[k] for k in ('paths', 'obligations', 'discharged', 'queries', 'violations', 'inconclusive', 'out_of_bound')})
@@ -93,7 +105,7 @@ def worker(cfg):
         res['violations'] = []; res['inconclusive'] = [] if res['twins_ok'] else out['inconclusive']
         res['obligations'] = 0; res['discharged'] = 0
         return res
-    res['sample'] = {k: v for k, v in cfg.items()}
+    res['sample'] = {k: v for k, v in cfg.items() if k != 'pieces'}
     res['sample'].update({'obligations': out['obligations'], 'discharged': out['discharged']})
     return res
 
@@ -118,6 +130,12 @@ def configs(tier, seed):
     if tier == 'quick': cc = rng.sample(cc, min(len(cc), 2500))
     elif len(cc) > 40000: cc = rng.sample(cc, 40000)
     cfgs += [dict(c, level='cir') for c in cc]
+    # time-domain power p(t) = v(t) i(t): multi-frequency circuits of the C09 family
+    from harness import C09
+    tc, _ = C09.configs(tier, seed)
+    tc = [c for c in tc if c['mode'] == 'time' and not c.get('twin') and sum(1 for it in c['components'] if it[3] in cirlib.SOURCES or it[3] in ('Vper', 'Iper')) >= (2 if tier == 'quick' else 1)]
+    if tier == 'quick': tc = [c for c in tc if all(it[3] not in ('Vper', 'Iper') for it in c['components'])][:8]
+    cfgs += [dict(c, level='time') for c in tc]
     wp = [c for c in cfgs if c['level'] == 'net' and tb.well_posed(c['branches'], c['ref']) and len(c['branches']) >= 2]
     twins = [dict(c, twin=True) for c in rng.sample(wp, 10)]
     return cfgs + twins, None
@@ -136,7 +154,7 @@ def main(tier):
     return rep.finish(
         explanation='bounded symbolic verification: get_power of the network solution, ComplexSolution (peak and RMS) and DCSolution is executed on symbolic values; z3 (QF_LRA, degree-2 certificates obtained by multiplying the conjugated solver equations with the potentials) shows that the complex powers sum to zero with linear sources counted as delivered power, that S = v conj(i) (RMS), v conj(i)/2 (peak), v i (DC), and that S_R = R|i|^2, S_G = G|v|^2, S_L = jwL|i|^2, S_C = -jwC|v|^2 for all values; the sign clauses follow from z conj(z) >= 0 with positive R, L, C, w',
         assumptions=['exact field arithmetic', 'np.linalg.solve contract stub', 'the mathematical fact z*conj(z) >= 0 turns the discharged identities into the sign clauses',
-                     'time-domain and transient power clauses (v(t) i(t)) are discharged in the C09 and C12 checks', 'structurally ill-posed configurations / regions skipped'],
+                     'the time-domain power clause p(t) = v(t) i(t) is discharged here on multi-frequency circuits of the C09 family (same harness); the transient product clause in C12', 'structurally ill-posed configurations / regions skipped'],
         bounds={'network level': 'connected multigraphs (2,2),(3,2),(3,3)' + (',(2,3),(3,4)' if tier == 'thorough' else '') + ' over 9 kinds (sampled in quick), seeded samples up to ' + ('5 nodes/7 branches' if tier == 'quick' else '7 nodes/11 branches'),
                 'circuit level': 'a seeded subset of the C02 configuration set (same analyses: symbolic w, w=0, peak, RMS, DC)'},
         trusted=['z3 QF_LRA', 'symx executor', 'oracle/tableau.py'])
